@@ -94,7 +94,7 @@ Record exch := {
   x_pay : option N             (* ClientResponse.content *)
 }.
 
-Record deliv := { d_e : N; d_tag : tag; d_id : N }.
+Record deliv := { d_e : N; d_tag : tag; d_id : N; d_head : bool (* a response head (else a body item) *) }.
 
 Record seg := {
   g_c : N;                     (* connection whose data_received is running *)
@@ -421,7 +421,7 @@ Definition do_read (cf : cfg) (s : state) (e : N) : option state :=
       match c_buf cn with
       | m :: rest =>
           let s1 := set_conn s c (set_c_buf cn rest) in
-          let s2 := set_s_log s1 (s_log s1 ++ [{| d_e := e; d_tag := m_tag m; d_id := m_id m |}]) in
+          let s2 := set_s_log s1 (s_log s1 ++ [{| d_e := e; d_tag := m_tag m; d_id := m_id m; d_head := true |}]) in
           let s3 := set_exch s2 e (set_x_pay (set_x_closed (set_x_st x XHead) false) (m_pay m)) in
           match m_pay m with
           | None => Some (response_eof cf s3 e)
@@ -442,7 +442,7 @@ Definition do_read (cf : cfg) (s : state) (e : N) : option state :=
 Fixpoint log_items (e : N) (items : list (N * tag)) : list deliv :=
   match items with
   | [] => []
-  | (i, t) :: r => {| d_e := e; d_tag := t; d_id := i |} :: log_items e r
+  | (i, t) :: r => {| d_e := e; d_tag := t; d_id := i; d_head := false |} :: log_items e r
   end.
 
 Definition do_body (cf : cfg) (s : state) (e : N) : option state :=
